@@ -1,5 +1,6 @@
 import OV.Model.C01SExp
 import OV.Model.C01Sem
+import OV.Model.C01Export
 import OV.Drivers.Loop
 /-! Line-protocol driver for C01 and C02 (one model).
     (`<func-sexp>` may be wrapped: `(withenv (closure (k <lit>)*) (globals (k <lit>)*) <func-sexp>)`)
@@ -7,6 +8,10 @@ import OV.Drivers.Loop
     `C01 wf <graph-sexp>`      → `true` | `false <why>` | `bad-input`   (the verified checker `wfGraph`
                                   run on a graph parsed back from a proto of the real converter)
     `C01 live <func-sexp>`     → live-in set of the function body (analysis tie)
+    `C01 export (withdefaults (defaults (NAME TEXT|_)*) <func-sexp>)` → `ok <wf> <norefs|refs> <graph-sexp>` | `err …`:
+                                  the main graph `to_model_proto()` builds from the function body
+    `C01 fragment <func-sexp>` → `straight` | `if` | `loop` | `nested` | `attrs` (attribute parameters: not covered) | `none`:
+                                  the refinement theorem that covers it
     `C01 stable <func-sexp>`   → whether every liveness fixpoint of the model was reached within its fuel
                                   (hypothesis of `liveness_sound`) -/
 namespace OV.Drivers.C01
@@ -31,6 +36,39 @@ def handle (args : List String) : String :=
       match decGraph e with
       | none => "bad-input"
       | some g => if wfGraph g then "true" else "false " ++ wfWhy g
+  | "export" :: rest =>
+    -- `export (defaults (NAME TEXT|_)*) <func-sexp>`: convert, then `to_model_proto` on the body
+    match parseSExp (" ".intercalate rest) with
+    | some (.list [.atom "withdefaults", .list (.atom "defaults" :: ds), fe]) =>
+      let dsd := ds.filterMap (fun d => match d with
+        | .list [.atom k, .atom v] => some (k, if v = "_" then none else some v)
+        | _ => none)
+      (match decProgram fe with
+       | none => "bad-input"
+       | some f =>
+         match convert f with
+         | .error err => "err " ++ showErr err
+         | .ok g =>
+           match exportModel dsd g with
+           | .error err => "err " ++ showErr err
+           | .ok g' =>
+             "ok " ++ (if wfGraph g' then "true" else "false:" ++ wfWhy g') ++ " "
+               ++ (if (attrRefs g'.nodes).isEmpty then "norefs" else "refs") ++ " " ++ (encGraph g').show)
+    | _ => "bad-input"
+  | "fragment" :: rest =>
+    -- which refinement theorem of Props/C01.lean covers the program (strongest first)
+    match parseSExp (" ".intercalate rest) with
+    | none => "bad-input"
+    | some e =>
+      match decProgram e with
+      | none => "bad-input"
+      | some f =>
+        if f.params.any (fun p => match p with | .attr _ _ => true | .tensor _ => false) then "attrs"
+        else if straightLine f.body then "straight"
+        else if ifLine f.body then "if"
+        else if forLine f.body then "loop"
+        else if nestLine f.body then "nested"
+        else "none"
   | "stable" :: rest =>
     match parseSExp (" ".intercalate rest) with
     | none => "bad-input"
